@@ -280,6 +280,7 @@ func main() {
 	folded := 0
 	perHarness := map[string]map[string]interface{}{}
 	knownPrinted := map[string]bool{}
+	knownIDs := map[string]int{}
 	var lines []string
 	replayDir := filepath.Join(*verifDir, "evidence", "replay")
 	for _, r := range results {
@@ -333,6 +334,7 @@ func main() {
 				kf := matchKnown(known, *prop, r.Harness, v.ID)
 				if kf != nil {
 					nknown++
+					knownIDs[v.ID]++
 					if !knownPrinted[kf.ID] {
 						knownPrinted[kf.ID] = true
 						lines = append(lines, fmt.Sprintf("KNOWN-FINDING: property=%s %s %s", *prop, kf.ID, kf.What))
@@ -368,6 +370,11 @@ func main() {
 		exit = 2
 	}
 	wall := time.Since(t0).Seconds()
+	if *verbose {
+		for id, n := range knownIDs {
+			fmt.Fprintf(os.Stderr, "known-finding obligation %s: %d cases\n", id, n)
+		}
+	}
 	for _, l := range lines {
 		fmt.Println(l)
 	}
